@@ -159,6 +159,8 @@ fn server_for_cli(id: &'static str, slot: Vec<(&'static str, String)>) -> Server
                 if let Some(x) = put("player") { s.players[0].name = x }
                 if let Some(x) = put("rule-key") { s.extra[0].0 = x }
                 if let Some(x) = put("rule-value") { s.extra[0].1 = x }
+                // a server variable shaped like a per-player field the client does not know: an ordinary unused entry
+                s.extra.push(("kills_0".to_string(), "7".to_string()));
                 let n = s.pairs().len();
                 Box::new(Gs1Server { state: s, cut_at: vec![n / 2] }) as Box<dyn Responder>
             })
